@@ -185,6 +185,11 @@ def step (_ : Unit) (fs : List String) : Unit × String :=
       let (cols, r) ← counted? rest
       if r ≠ [] then none else
       pure (outStr (oneHandle c e (← name? hdr) (← name? qdb) (← name? mp) (fok == "1") cols))
+    | ["alias", _ep, _src, dbB, mB, dbC, mC] => do
+      -- stage "reused RequestCtx + parked flush worker": each request's rows are stored under ITS database
+      let b : Key := ⟨← name? dbB, ← name? mB⟩
+      let c : Key := ⟨← name? dbC, ← name? mC⟩
+      pure s!"b={hx (bufferKey b)} c={hx (bufferKey c)}"
     | "rep" :: pre :: ilen :: rest => do
       let p ← unhex pre
       let n ← nat? ilen
